@@ -310,6 +310,23 @@ def run_item(ctx, item):
             for p_ in sc.parts:
                 mb = {f"{ts.beats}/{ts.beat_type}": rng.choice([1, 2, 3, ts.beats]) for ts in p_.iter_all(S.TimeSignature) if rng.random() < 0.7}
                 p_.use_musical_beat(mb)
+        # the part was just extended by one more note (a new last time point that nothing has looked at yet); the first thing
+        # asked of it is its printed form, which has to be the same after all the other read-only calls of this item
+        p0 = sc.parts[0]
+        last_t = int(p0.last_point.t)
+        p0.add(S.Note("C", 4, id="fresh-last-note", voice=1, staff=1), last_t, last_t + max(1, int(p0.quarter_duration_map(last_t))))
+        ok_pr, pretty_first = ctx.try_call(p0.pretty)
+        ctx.try_call(p0.note_array)
+        ctx.try_call(lambda: list(p0.iter_all(S.GenericNote, include_subclasses=True)))
+        ctx.try_call(lambda: p0.time_signature_map(last_t))
+        ok_pr2, pretty_last = ctx.try_call(p0.pretty)
+        ctx.check()
+        if ok_pr and ok_pr2 and pretty_first != pretty_last:
+            a_, b_ = pretty_first.splitlines(), pretty_last.splitlines()
+            i_ = next((i for i, (x, y) in enumerate(zip(a_, b_)) if x != y), min(len(a_), len(b_)))
+            ctx.violation("result-changed-after-other-call:Part.pretty", "the printed form of a part just extended differs before and after taking "
+                          f"its note array, its notes and a signature map (line {i_}: {a_[i_] if i_ < len(a_) else '<eof>'!r} vs "
+                          f"{b_[i_] if i_ < len(b_) else '<eof>'!r})", {"entry_point": "Part.pretty", "after": "note_array, iter_all, time_signature_map"})
         nobj = n_objects(sc)
         dg = core.digest(fingerprint(sc))
         run_pair_checks(ctx, score_entries(sc, rng), rng, "score", dg, nobj)
